@@ -71,6 +71,7 @@ def main():
                     pass
     finally:
         sh("git -C /repo checkout -- .")
+        sh("git -C /repo clean -fdq -- src")   # files a patch added
     meta["checks"] = caught
     meta["caught_by"] = [p for p, c in caught.items() if c["violation"] and "no-failing-input-found" not in c["violation"]]
     meta["caught_by_correspondence_only"] = [p for p, c in caught.items() if c["violation"] and "no-failing-input-found" in c["violation"]]
